@@ -276,6 +276,17 @@ def answer (ts : List String) : String :=
         | some now => showSorted ((Mdns.known s service now).map showInstance)
         | none => "bad-op"
       | _ => "bad-op"
+    | some (s, ["N", now]) =>
+      match now.toNat? with
+      | some now =>
+        match s.nextRefresh now with
+        | none => "none"
+        | some r => "some " ++ toString r
+      | none => "bad-op"
+    | some (s, ["NC", now]) =>
+      match now.toNat? with
+      | some now => if (s.nextRefresh now).isSome then "some" else "none"
+      | none => "bad-op"
     | _ => "bad-op"
   | "svcb" :: code :: prio :: rest =>
     match code.toNat?, prio.toNat?, pName rest with
